@@ -22,6 +22,9 @@ def _import_line(ems):
     txt = "".join(t for t in pieces if t not in (", ", "<join:, >") and not t.startswith("<join:"))
     txt = re.sub(M.ARG + "+", M.ARG, txt)
     m = re.search(r"import type \{.*?\";\n?", txt, re.S)
+    if not m:
+        # an import statement is written, but not one that ends in `";`: kept as it is, so that the two sides differ
+        m = re.search(r"import type \{.*?;\n?", txt, re.S) or re.search(r"import type \{.*", txt, re.S)
     return (m.group(0) if m else None), bool(seps)
 
 
